@@ -445,8 +445,10 @@ def do_assemble(env, op, fault):
                 else:
                     prod = vec.assemble(*mods, id=op.get("out_id", "assembly"), name=op.get("out_name", "assembly"))
                 out = {"product": snapshot(prod)}
+                env["last_product"] = prod
             except Exception as exc:
                 out = canon_exception(exc, env)
+                env["last_product"] = None
         ws = []
         for w in wlist:
             m = w.message
@@ -482,6 +484,24 @@ def _new_env(cat, strip=False):
     return env
 
 
+def _apply_keep(env, op, baseline=None):
+    """A client keeps the product of this call and uses it as an input later
+    (multi-level assembly): it joins the shared pool under op['keep']."""
+    prod = env.get("last_product")
+    if prod is None or not op.get("keep"):
+        return False
+    rid = op["keep"]
+    env["pool"][rid] = prod
+    env["wrap_def"]["w:" + rid] = {"h": "w:" + rid, "cls": op["keep_cls"], "rec": rid}
+    try:
+        env["handles"]["w:" + rid] = W["classes"][op["keep_cls"]](prod)
+    except Exception:
+        env["handles"].pop("w:" + rid, None)
+    if baseline is not None:
+        baseline[rid] = snapshot(prod)
+    return True
+
+
 def _run_child(case):
     cat = case["catalogue"]
     env = _new_env(cat)
@@ -496,6 +516,8 @@ def _run_child(case):
             res, info = do_assemble(env, op, faults.get(op["id"]))
             ev["outcome"] = res
             ev["info"] = info
+            if op.get("keep") and "product" in res:
+                ev["kept"] = _apply_keep(env, op, baseline)
         elif k == "probe":
             inst = env["handles"].get(op["h"])
             if inst is None:
@@ -544,14 +566,33 @@ def _run_child(case):
 # reference child: the same call, first call of a pristine process, fresh pool
 
 
-def _reference_child(cat, edits, op, strip):
-    env = _new_env({"pool": cat["pool"], "refs": cat.get("refs", []), "wrappers": []}, strip=strip)
-    for e in edits:
-        apply_edit(cat, env["pool"], e, strip=strip)
-    wdefs = {wd["h"]: wd for wd in cat["wrappers"]}
+def _fresh_wrappers(env, wdefs, op):
     for h in [op["vec"]] + list(op["mods"]):
-        if h in wdefs and h not in env["handles"]:
-            env["handles"][h] = W["classes"][wdefs[h]["cls"]](env["pool"][wdefs[h]["rec"]])
+        wd = wdefs.get(h) or env["wrap_def"].get(h)
+        if wd is not None and wd["rec"] in env["pool"]:
+            try:
+                env["handles"][h] = W["classes"][wd["cls"]](env["pool"][wd["rec"]])
+            except Exception:
+                env["handles"].pop(h, None)
+
+
+def _reference_child(cat, history, op, strip):
+    """The same call as the first call of a pristine process on a freshly built
+    pool: caller edits and kept products are reproduced in their original order
+    (kept products by fault-free assemblies with fresh wrappers)."""
+    env = _new_env({"pool": cat["pool"], "refs": cat.get("refs", []), "wrappers": []}, strip=strip)
+    wdefs = {wd["h"]: wd for wd in cat["wrappers"]}
+    for e in history:
+        if e["op"] == "assemble":
+            env["handles"] = {}
+            _fresh_wrappers(env, wdefs, e)
+            res, _ = do_assemble(env, e, None)
+            if "product" in res:
+                _apply_keep(env, e)
+        else:
+            apply_edit(cat, env["pool"], e, strip=strip)
+    env["handles"] = {}
+    _fresh_wrappers(env, wdefs, op)
     res, _ = do_assemble(env, op, None)
     return res
 
@@ -607,11 +648,43 @@ def current_citations(cat, edits=()):
     return src
 
 
-def check_citations(cat, prod, edits=()):
+def _content_to_id(cat):
+    return {(r["title"], r["authors"], r.get("journal", "J. Sim. %s" % r["id"])): r["id"] for r in cat.get("refs", [])}
+
+
+def citations_of_snapshot(cat, snap):
+    """uid -> reference ids cited, read off a product snapshot (a kept product is
+    the source of the features that a later assembly inherits from it)."""
+    c2i = _content_to_id(cat)
+    ids = [c2i.get(_ref_content_key(r)) for r in snap["references"]]
+    out = {}
+    for f in snap["features"]:
+        q = dict((k, v) for k, v in f["qualifiers"])
+        notes = [n for n in q.get("note", []) if isinstance(n, str) and n.startswith("uid:")]
+        if not notes:
+            continue
+        got = []
+        for c in q.get("citation", []) or []:
+            m = _CIT.match(c) if isinstance(c, str) else None
+            if m and 1 <= int(m.group(1)) <= len(ids):
+                got.append(ids[int(m.group(1)) - 1])
+            else:
+                got = None
+                break
+        out[notes[0]] = got
+    return out
+
+
+def check_citations(cat, prod, edits=(), overrides=None):
     """prod: snapshot of the product.  Returns list of (clause, detail)."""
     fails = []
-    content_to_id = {(r["title"], r["authors"], r.get("journal", "J. Sim. %s" % r["id"])): r["id"] for r in cat.get("refs", [])}
-    src = current_citations(cat, edits)
+    content_to_id = _content_to_id(cat)
+    # allowed[uid] = the citation lists a feature with this tag may carry: what its source
+    # cites now, or - when the call's inputs are kept products - what each of those products
+    # carried for it (two kept products may hold the same tag in different states)
+    allowed = {u: ([v] if v is not None else None) for u, v in current_citations(cat, edits).items()}
+    for u, lists in (overrides or {}).items():
+        allowed[u] = None if any(v is None for v in lists) else list(lists)
     prefs = prod["references"]
     pref_ids = [content_to_id.get(_ref_content_key(r)) for r in prefs]
     cited = set()
@@ -620,8 +693,8 @@ def check_citations(cat, prod, edits=()):
         notes = [n for n in q.get("note", []) if isinstance(n, str) and n.startswith("uid:")]
         cit = q.get("citation")
         if cit is None:
-            if notes and src.get(notes[0]):
-                fails.append(("C10.target", "feature %s lost its citation qualifier (expected %s)" % (notes[0], src[notes[0]])))
+            if notes and allowed.get(notes[0]) and [] not in allowed[notes[0]]:
+                fails.append(("C10.target", "feature %s lost its citation qualifier (expected %s)" % (notes[0], allowed[notes[0]])))
             continue
         got = []
         ok = True
@@ -639,9 +712,9 @@ def check_citations(cat, prod, edits=()):
             got.append(pref_ids[k - 1])
         if not ok:
             continue
-        if notes and src.get(notes[0]) is not None:
-            if got != src[notes[0]]:
-                fails.append(("C10.target", "feature %s cites %s, its source cited %s" % (notes[0], got, src[notes[0]])))
+        if notes and allowed.get(notes[0]) is not None:
+            if got not in allowed[notes[0]]:
+                fails.append(("C10.target", "feature %s cites %s, its source cited %s" % (notes[0], got, allowed[notes[0]] if len(allowed[notes[0]]) > 1 else allowed[notes[0]][0])))
             cited.update(got)
     for rid in sorted(x for x in cited if x is not None):
         n = pref_ids.count(rid)
@@ -677,7 +750,7 @@ def _has_malformed(cat, rec_ids):
 
 
 def reference(cat, edits, op, strip=False):
-    key = kernel.canon([cat["pool"], cat.get("refs"), [w for w in cat["wrappers"] if w["h"] in [op["vec"]] + list(op["mods"])], edits, {k: op.get(k) for k in ("vec", "mods", "out_id", "out_name", "warnings")}, strip])
+    key = kernel.canon([cat["pool"], cat.get("refs"), [w for w in cat["wrappers"] if w["h"] in [op["vec"]] + list(op["mods"])] if not any(e["op"] == "assemble" for e in edits) else cat["wrappers"], edits, {k: op.get(k) for k in ("vec", "mods", "out_id", "out_name", "warnings")}, strip])
     memo = W.setdefault("ref_memo", {})
     hk = h64(key)
     if hk in memo:
@@ -705,6 +778,7 @@ def execute(case):
     rec_of = lambda h: wdefs[h]["rec"] if h in wdefs else None
     prev_kind = "none"
     cited_products = 0
+    kept_src, kept_cit = {}, {}
     for i, (op, ev) in enumerate(zip(ops, observed)):
         k = op["op"]
         out = ev["outcome"]
@@ -753,8 +827,14 @@ def execute(case):
                 kind = "injected:" + kind
             this_kind = kind
             stats["assemble:" + kind] += 1
-            cit = _has_citations(cat, recs)
+            cit = _has_citations(cat, recs) or any(kept_cit.get(r) for r in recs)
             malformed = _has_malformed(cat, recs)
+            overrides = {}
+            for r in recs:
+                if r in kept_src:
+                    for u, v in kept_src[r].items():
+                        overrides.setdefault(u, []).append(v)
+                    probes["product-reused-as-input"] += 1
             if malformed:
                 probes["assemble-with-malformed-citation"] += 1
             if cit:
@@ -796,6 +876,8 @@ def execute(case):
                                      "expected": _short(d[1]), "observed": _short(d[2]), "detail": "differs from the first-call-on-fresh-copies reference at %s" % d[0]})
                 rec["reference"] = kernel.digest_of(ref)[:16]
             # --- C10 on every returned product
+            if "product" in out and op["vec"] == "w:V2":
+                probes["level2-product"] += 1
             if "product" in out and case.get("scenario", {}).get("kit"):
                 probes["kit-scenario-product:" + str(cat["pool"][0]["id"])] += 1
             if "product" in out:
@@ -805,7 +887,7 @@ def execute(case):
                     probes["product-with-cited-inputs"] += 1
                     if any(k2 == "citation" for f in prod["features"] for k2, _ in f["qualifiers"]):
                         probes["product-carries-citation"] += 1
-                for clause, detail in check_citations(cat, prod, edits):
+                for clause, detail in check_citations(cat, prod, edits, overrides):
                     failures.append({"property": "C10", "clause": clause, "op": i, "op_id": op.get("id"), "signature": clause.split(".")[1], "expected": None, "observed": None, "detail": detail})
                 if not fired and not used_stale and cit and not malformed:
                     sref = reference(cat, list(edits), op, strip=True)
@@ -822,6 +904,15 @@ def execute(case):
                     failures.append({"property": "C10", "clause": "C10.same-as-without", "op": i, "op_id": op.get("id"), "signature": "%s-vs-%s" % (out.get("exc"), "product" if "product" in sref else sref.get("exc")), "expected": _short(sref, 120), "observed": _short(out, 120), "detail": "records with citations do not assemble like records without them"})
             for h in hs:
                 matched_at[h] = True
+            if op.get("keep") and ev.get("kept") and "product" in out:
+                rid = op["keep"]
+                wdefs["w:" + rid] = {"h": "w:" + rid, "cls": op["keep_cls"], "rec": rid}
+                kept_src[rid] = citations_of_snapshot(cat, out["product"])
+                kept_cit[rid] = cit
+                matched_at.pop("w:" + rid, None)
+                stale.discard("w:" + rid)
+                edits.append({k2: v2 for k2, v2 in op.items() if k2 not in ("id", "client")})
+                probes["product-kept"] += 1
         if ev["purity"]:
             d0 = ev["purity"][0]
             on = this_kind if k == "assemble" else k
@@ -946,7 +1037,14 @@ def gen_scenario(g, kind=None):
     natural failure class, with references and citations."""
     cutter = g.choice(CUTTERS)
     geom = dna.geometry(cutter)
-    n = g.choice([1, 2, 2, 3, 3, 4, 5, 7]) if kind != "small" else g.choice([1, 2, 3])
+    two_level = kind == "two-level"
+    geom2 = None
+    if two_level:
+        # a second enzyme with another recognition site for the next level
+        cutter2 = g.choice([c for c in CUTTERS if dna.geometry(c)["site"] != geom["site"]])
+        geom2 = dna.geometry(cutter2)
+    other_sites = (geom2["site"],) if two_level else ()
+    n = g.choice([1, 2, 2, 3, 3, 4, 5, 7]) if kind not in ("small", "two-level") else g.choice([1, 2, 3])
     ovs = dna.overhangs(g, geom["ov"], n + 3)
     chain, extra = ovs[: n + 1], ovs[n + 1:]
     # references
@@ -959,7 +1057,7 @@ def gen_scenario(g, kind=None):
     dup_refs = g.random() < 0.15       # one record lists the same reference twice
     malformed = g.random() < 0.06      # one feature carries a dangling / malformed citation
     pool, wrappers = [], []
-    lvl = g.choice(["Entry", "Cassette"])
+    lvl = g.choice(["Entry", "Cassette"]) if not two_level else "Entry"
     mcls, vcls = "gen:%s:%s" % (lvl, cutter), "gen:%sVector:%s" % (lvl, cutter)
 
     def ref_list():
@@ -986,15 +1084,27 @@ def gen_scenario(g, kind=None):
         wrappers.append({"h": "w:" + rid, "cls": cls, "rec": rid})
         return rd
 
-    seq, seg = dna.make_vector(g, geom, chain[0], chain[-1], g.randint(4, 30), g.randint(20, 120))
-    add("V0", "vector", seq, seg, vcls)
+    level2 = None
+    if two_level:
+        a2 = dna.overhangs(g, geom2["ov"], 3)
+        seq, seg = dna.make_vector2(g, geom, chain[0], chain[-1], geom2, a2[0], a2[1], g.randint(4, 30), g.randint(20, 80))
+        add("V0", "vector", seq, seg, vcls)
+        seq, seg = dna.make_vector2(g, geom, chain[0], chain[-1], geom2, a2[1], a2[2], g.randint(4, 30), g.randint(20, 80))
+        add("VB", "vector", seq, seg, vcls)
+        seq, seg = dna.make_vector(g, geom2, a2[0], a2[2], g.randint(4, 30), g.randint(20, 80), all_sites=(geom["site"],))
+        rd2 = add("V2", "vector", seq, seg, "gen:CassetteVector:%s" % geom2["name"])
+        rd2["broken_seq"] = _break_site(rd2["seq"], geom2["site"])
+        level2 = {"vec": "w:V2", "mod_cls": "gen:Cassette:%s" % geom2["name"], "makers": [["P1", "w:V0"], ["P2", "w:VB"]]}
+    else:
+        seq, seg = dna.make_vector(g, geom, chain[0], chain[-1], g.randint(4, 30), g.randint(20, 120))
+        add("V0", "vector", seq, seg, vcls)
     for i in range(n):
-        seq, seg = dna.make_module(g, geom, chain[i], chain[i + 1], g.randint(2, 60), g.randint(10, 80))
+        seq, seg = dna.make_module(g, geom, chain[i], chain[i + 1], g.randint(2, 60), g.randint(10, 80), all_sites=other_sites)
         add("M%d" % i, "module", seq, seg, mcls)
     extras = []
     if g.random() < 0.6:  # duplicate start overhang
         i = g.randrange(n)
-        seq, seg = dna.make_module(g, geom, chain[i], chain[i + 1] if g.random() < 0.5 else extra[0], g.randint(2, 30), g.randint(10, 40))
+        seq, seg = dna.make_module(g, geom, chain[i], chain[i + 1] if g.random() < 0.5 else extra[0], g.randint(2, 30), g.randint(10, 40), all_sites=other_sites)
         add("D%d" % i, "module", seq, seg, mcls)
         extras.append("w:D%d" % i)
     if g.random() < 0.4:  # reverse-complement start overhang
@@ -1003,7 +1113,7 @@ def gen_scenario(g, kind=None):
         add("X%d" % i, "module", seq, seg, mcls)
         extras.append("w:X%d" % i)
     if g.random() < 0.6:  # orphan (unused)
-        seq, seg = dna.make_module(g, geom, extra[0], extra[1], g.randint(2, 30), g.randint(10, 40))
+        seq, seg = dna.make_module(g, geom, extra[0], extra[1], g.randint(2, 30), g.randint(10, 40), all_sites=other_sites)
         add("O0", "module", seq, seg, mcls)
         extras.append("w:O0")
     if g.random() < 0.3:  # vector whose overhangs coincide
@@ -1022,7 +1132,7 @@ def gen_scenario(g, kind=None):
     if g.random() < 0.25:  # second wrapper on an existing record
         i = g.randrange(n)
         wrappers.append({"h": "w2:M%d" % i, "cls": mcls, "rec": "M%d" % i})
-    return {"cutter": cutter, "refs": refs, "pool": pool, "wrappers": wrappers, "chain": ["w:M%d" % i for i in range(n)], "extras": extras, "n": n}
+    return {"cutter": cutter, "refs": refs, "pool": pool, "wrappers": wrappers, "chain": ["w:M%d" % i for i in range(n)], "extras": extras, "n": n, "level2": level2}
 
 
 def _cidar_cls(stem):
@@ -1089,6 +1199,8 @@ def _gen_call(g, sc, i):
     mods = list(chain)
     x = g.random()
     vec = sc.get("vec", "w:V0")
+    if sc.get("level2") and g.random() < 0.5:
+        vec = "w:VB"
     if x < 0.15 and len(mods) > 1:
         mods.pop(g.randrange(len(mods)))  # gap after j consumed modules
     elif x < 0.35 and sc["extras"]:
@@ -1125,7 +1237,8 @@ def gen_case(spec):
     fl = stream(seed, "fault")
     mode = spec.get("mode", "random")
     kit = mode == "kit" or (mode == "random" and g.random() < 0.08)
-    sc = gen_kit_scenario(g) if kit else gen_scenario(g, "small" if mode in ("enumerate", "lines") else None)
+    two = (not kit) and mode == "random" and g.random() < 0.18
+    sc = gen_kit_scenario(g) if kit else gen_scenario(g, "small" if mode in ("enumerate", "lines") else ("two-level" if two else None))
     cat = {"cutter": sc["cutter"], "refs": sc["refs"], "pool": sc["pool"], "wrappers": sc["wrappers"]}
     ops, faults = [], []
 
@@ -1176,9 +1289,30 @@ def gen_case(spec):
     enabled_exc = g.sample(EXC_KINDS, g.randint(1, len(EXC_KINDS)))
     broken = set()
     mod_recs = [r["id"] for r in cat["pool"] if r["role"] == "module" and not r.get("source")]
-    while len(ops) < n_ops:
+    lv2 = sc.get("level2")
+    guard = 0
+    while len(ops) < n_ops and guard < 40 * n_ops:
+        guard += 1
         client = sch.randrange(n_clients)
         x = g.random()
+        if lv2 and x < 0.16:
+            # keep a product for the next level (never faulted: it becomes part of the shared pool)
+            pid, vec = g.choice(lv2["makers"])
+            mods = list(sc["chain"])
+            g.shuffle(mods)
+            call = {"op": "assemble", "vec": vec, "mods": mods, "out_name": pid, "keep": pid, "keep_cls": lv2["mod_cls"]}
+            if g.random() < 0.7:
+                call["out_id"] = pid      # otherwise the default id "assembly" (shared by all such products)
+            add(client, call)
+            continue
+        if lv2 and x < 0.34:
+            mods = g.choice([["w:P1", "w:P2"], ["w:P2", "w:P1"], ["w:P1", "w:P2"], ["w:P1"], ["w:P2"], ["w:P1", "w:P1", "w:P2"]])
+            op = add(client, {"op": "assemble", "vec": lv2["vec"], "mods": mods, "out_id": "dev%d" % len(ops), "out_name": "dev%d" % len(ops)})
+            if fl.random() < fault_rate:
+                faults.append({"op": op["id"], "mode": "boundary", "call": fl.randrange(0, 14), "when": fl.choice(["before", "after"]), "exc": fl.choice(enabled_exc)})
+            continue
+        if lv2 and 0.72 <= x < 0.80:
+            continue  # no sequence edits in two-level runs (kept products must be reproducible with fresh wrappers)
         if x < 0.72:
             op = add(client, _gen_call(g, sc, len(ops)))
             if fl.random() < fault_rate:
@@ -1303,7 +1437,7 @@ def catalogue_summary(case):
 
 
 EXPECTED_PROBES = {
-    "C07": ["inputs-sharing-an-id-string", "input-origin-on-fragment-start", "unused-modules-raised-as-error", "assemble-with-duplicate-reference-in-one-record", "assemble-with-malformed-citation", "probe:target_sequence", "edit:citation", "assemble-with-citations", "refinement-after-failure", "refinement-after-injected-fault", "same-instance-twice", "missing-module", "unused-modules-warning", "stale-wrapper-used", "edit:edit_seq", "rewrap"],
+    "C07": ["level2-product", "product-kept", "product-reused-as-input", "inputs-sharing-an-id-string", "input-origin-on-fragment-start", "unused-modules-raised-as-error", "assemble-with-duplicate-reference-in-one-record", "assemble-with-malformed-citation", "probe:target_sequence", "edit:citation", "assemble-with-citations", "refinement-after-failure", "refinement-after-injected-fault", "same-instance-twice", "missing-module", "unused-modules-warning", "stale-wrapper-used", "edit:edit_seq", "rewrap"],
     "C10": ["product-carries-citation", "product-with-cited-inputs"],
 }
 
